@@ -77,6 +77,8 @@ static bool with_ptee(const std::string& n, F&& f)
   if (n == "long") { f(tag<long>{}); return true; }
   if (n == "ulong") { f(tag<unsigned long>{}); return true; }
   if (n == "llong") { f(tag<long long>{}); return true; }
+  if (n == "cllong") { f(tag<const long long>{}); return true; }      // const-qualified pointees: the same layout as the unqualified ones
+  if (n == "clong") { f(tag<const long>{}); return true; }
   if (n == "double") { f(tag<double>{}); return true; }
   if (n == "ptr") { f(tag<int*>{}); return true; }
   if (n == "arr4") { f(tag<int[4]>{}); return true; }
